@@ -373,8 +373,18 @@ func ChainLoopsSSA(fn *ssa.Function) []ChainLoop2 {
 			} else {
 				nonEmpty, empty := emptyEdges(fn, elem)
 				// assumption len(e) > 0: delete the edges taken only when it is empty
+				// offset = advance(offset, row): a helper that returns the row's last end for a non-empty row and the
+				// offset it was handed for an empty one
+				viaAdvance := func(v ssa.Value) bool {
+					c, ok := v.(*ssa.Call)
+					if !ok || c.Call.StaticCallee() == nil {
+						return false
+					}
+					oi, ri, isAdv := advanceHelper(c.Call.StaticCallee())
+					return isAdv && oi < len(c.Call.Args) && ri < len(c.Call.Args) && c.Call.Args[oi] == ssa.Value(p) && Equiv(c.Call.Args[ri], elem)
+				}
 				ok1, why1 := check("for a non-empty row ", empty, func(v ssa.Value) (bool, string) {
-					if isLastOf(v, elem) {
+					if isLastOf(v, elem) || viaAdvance(v) {
 						return true, ""
 					}
 					if ip, isPhi := v.(*ssa.Phi); isPhi {
@@ -385,7 +395,7 @@ func ChainLoopsSSA(fn *ssa.Function) []ChainLoop2 {
 					return false, "the running lower bound is " + describe(v) + " instead of the row's last end"
 				})
 				ok2, why2 := check("for an empty row ", nonEmpty, func(v ssa.Value) (bool, string) {
-					if v == ssa.Value(p) || isLastOf(v, elem) {
+					if v == ssa.Value(p) || isLastOf(v, elem) || viaAdvance(v) {
 						return true, ""
 					}
 					if ip, isPhi := v.(*ssa.Phi); isPhi {
@@ -449,4 +459,66 @@ func LastAccessorParam(fn *ssa.Function) (int, bool) { return lastAccessorParam(
 func EmptyEdges(fn *ssa.Function, x ssa.Value) EdgeSet {
 	_, e := emptyEdges(fn, x)
 	return e
+}
+
+// advanceHelper: fn(offset int, row []int) int returns row[len(row)-1] on every path that implies a non-empty row
+// and its offset parameter on every path that implies an empty one (decided by deleting the other kind of edge).
+func advanceHelper(fn *ssa.Function) (offIdx, rowIdx int, ok bool) {
+	if fn.Blocks == nil || fn.Signature.Results().Len() != 1 || !isPlainIntT(fn.Signature.Results().At(0).Type()) {
+		return 0, 0, false
+	}
+	offIdx, rowIdx = -1, -1
+	for i, prm := range fn.Params {
+		switch {
+		case isPlainIntT(prm.Type()) && offIdx < 0:
+			offIdx = i
+		case isIntSliceT(prm.Type()) && rowIdx < 0:
+			rowIdx = i
+		}
+	}
+	if offIdx < 0 || rowIdx < 0 {
+		return 0, 0, false
+	}
+	off, row := fn.Params[offIdx], fn.Params[rowIdx]
+	nonEmpty, empty := emptyEdges(fn, row)
+	if len(nonEmpty) == 0 {
+		return 0, 0, false
+	}
+	check := func(blocked EdgeSet, want func(v ssa.Value) bool) bool {
+		reach := Reachable(fn.Blocks[0], blocked)
+		n := 0
+		for _, b := range fn.Blocks {
+			ret, isRet := b.Instrs[len(b.Instrs)-1].(*ssa.Return)
+			if !isRet || !reach[b] {
+				continue
+			}
+			n++
+			v := ret.Results[0]
+			if phi, isPhi := v.(*ssa.Phi); isPhi {
+				for i, e := range phi.Edges {
+					pred := phi.Block().Preds[i]
+					if !reach[pred] {
+						continue
+					}
+					taken := false
+					for si, sb := range pred.Succs {
+						if sb == phi.Block() && !blocked[[2]int{pred.Index, si}] {
+							taken = true
+						}
+					}
+					if taken && !want(e) {
+						return false
+					}
+				}
+				continue
+			}
+			if !want(v) {
+				return false
+			}
+		}
+		return n > 0
+	}
+	okNE := check(empty, func(v ssa.Value) bool { return isLastOf(v, row) })
+	okE := check(nonEmpty, func(v ssa.Value) bool { return v == ssa.Value(off) })
+	return offIdx, rowIdx, okNE && okE
 }
